@@ -9,6 +9,7 @@ import CarModel.Driver.Xform
 import CarModel.Driver.IdxSer
 import CarModel.Driver.Inspect
 import CarModel.Driver.RO
+import CarModel.Driver.Parse
 namespace Car.Driver
 
 structure DState where
@@ -62,6 +63,7 @@ def step (st : DState) (line : String) : DState × String × String :=
       match st.rosess with
       | none => (st, "bad-op", "")
       | some se => let r := famROQ se kv; (st, r.1, r.2)
+    else if fam == "parse" then let r := famParse H kv; (st, r.1, r.2)
     else if fam == "idx" then let r := famIdx kv; (st, r.1, r.2)
     else (st, "bad-op", "")
 
